@@ -23,6 +23,7 @@ RULE = (
     "expression trees of depth 1..3 (thorough: 4) over leaves {Parameter(x,y), Parameter(x,y,z) (vector valued), time-dependent "
     "Parameter, int, float} and operators + - * / ** in both operand orders, evaluated at a scalar point and at an array of "
     "points (and time), and at a run of 3..6 closely spaced times (dt 1e-3 .. one ulp at t up to 1e5) at the same points; non-trivial = depth >= 2 with a number operand or a time-dependent leaf; distinct by spec hash"
+    "; rearranged arguments (other shapes, scalar/array arrangements with coinciding contents) without cache clearing; twin leaves with identical bytecode for the inequality clause"
 )
 ASSUMPTIONS = [
     "leaf functions are bounded and positive, divisors are positive sub-trees and non-integer powers have positive bases "
